@@ -88,8 +88,13 @@ def evaluate(
   """
   # Set up the permission and context.
   # NOTE: an empty permission set is falsy, thus compare with None.
+  scope_permission = permissions.get_permission()
   if permission is None:
-    permission = permissions.get_permission()
+    permission = scope_permission
+  elif scope_permission is not None:
+    # The enclosing `pg.coding.permission` scope controls the permission at the
+    # top level: the argument may narrow it but never widen it.
+    permission = permission & scope_permission
   ctx = dict(get_context())
   if global_vars:
     ctx.update(global_vars)
